@@ -482,6 +482,28 @@ func c08NamespaceRewrite(c *Check, a *Anchors) {
 						if as2, ok := m.(*ast.AssignStmt); ok && len(as2.Lhs) == 1 && fieldSel(info, as2.Lhs[0], PkgAst, "Task", "Task") && varOf(info, as2.Rhs[0]) == v {
 							found["task-name"] = true
 						}
+						// … or handed to a function of the group that stores its parameter as the task's name
+						// (task.moveIntoNamespace(taskName, …))
+						if hc, ok := m.(*ast.CallExpr); ok {
+							fn, _ := callee(info, hc).(*types.Func)
+							for _, h := range groupBodies {
+								if fn == nil || h.Obj != fn {
+									continue
+								}
+								for i, arg := range hc.Args {
+									pv := paramAt(info, h, i)
+									if varOf(info, arg) != v || pv == nil {
+										continue
+									}
+									inspectBody(h.Body, func(k ast.Node) bool {
+										if as3, ok := k.(*ast.AssignStmt); ok && len(as3.Lhs) == 1 && len(as3.Rhs) == 1 && fieldSel(info, as3.Lhs[0], PkgAst, "Task", "Task") && varOf(info, as3.Rhs[0]) == pv {
+											found["task-name"] = true
+										}
+										return true
+									})
+								}
+							}
+						}
 						return true
 					})
 				}
